@@ -16,6 +16,7 @@ type evidence struct {
 	Seed       int
 
 	Jobs, Paths, Decisions, Queries int
+	SecondOpinions, Disagreements, SecondUnknown int
 	SolverMS                        int64
 	Covers                          map[string]int
 	Asserts                         map[string]int
@@ -52,6 +53,9 @@ func (ev *evidence) absorb(jobs []string, results []*symterp.JobResult, werrs []
 		ev.Queries += r.Queries
 		ev.SolverMS += r.SolverMS
 		ev.AssumedAway += r.AssumedAway
+		ev.SecondOpinions += r.SecondOpinions
+		ev.Disagreements += r.SolverDisagreements
+		ev.SecondUnknown += r.SecondOpinionUnknown
 		for k, v := range r.Covers {
 			ev.Covers[k] += v
 		}
@@ -138,6 +142,7 @@ func (ev *evidence) write(wall time.Duration) {
 		"conformance_mismatches":        ev.ConformMismatch,
 		"inconclusive":                  ev.Inconclusive,
 		"assumed_away":                  ev.AssumedAway,
+		"cross_solver":                  map[string]int{"assertions_rechecked_by_z3new_and_cvc5": ev.SecondOpinions, "disagreements": ev.Disagreements, "second_solver_unknown": ev.SecondUnknown},
 		"vacuous":                       ev.Vacuous,
 		"functions_encoded":             keysOf(ev.Funcs),
 		"approximations":                ev.Approx,
